@@ -39,7 +39,7 @@ func qCol(r *vsql.Row, col string) vsql.Val {
 
 // qNew builds a table of n rows satisfying InvSQL (leased <=> lease_id and lease_until non-NULL) and,
 // when mem is non-nil, the SAME state in a MemoryStore (abstraction R of DESIGN.md appendix A).
-func qNew(n int, withMemory bool) (*qWorld, *mWorld) {
+func qNew(n int, withMemory bool, routes ...bool) (*qWorld, *mWorld) {
 	vrt.SQLModel()
 	w := &qWorld{n: n, ids: mIDs[:n]}
 	w.now = vrt.Time("now")
@@ -57,7 +57,11 @@ func qNew(n int, withMemory bool) (*qWorld, *mWorld) {
 		vrt.Assume(attempt >= 0 && attempt < 1<<30)
 		row := &vsql.Row{V: make([]vsql.Val, len(vsql.Columns))}
 		qSet(row, "id", vsql.Text(w.ids[i]))
-		qSet(row, "route", vsql.Text("r0"))
+		route := "r0"
+		if len(routes) > 0 && routes[0] {
+			route = []string{"r0", "r1"}[vrt.Choose("route", 2)]
+		}
+		qSet(row, "route", vsql.Text(route))
 		qSet(row, "target", vsql.Text("t0"))
 		qSet(row, "state", vsql.Text(string(st)))
 		qSet(row, "received_at", vsql.Int(recv.UnixNano()))
@@ -67,7 +71,7 @@ func qNew(n int, withMemory bool) (*qWorld, *mWorld) {
 		qSet(row, "trace_json", vsql.NullVal)
 		qSet(row, "schema_version", vsql.Int(1))
 		qSet(row, "dead_reason", vsql.NullVal)
-		env := &Envelope{ID: w.ids[i], Route: "r0", Target: "t0", State: st, ReceivedAt: recv, NextRunAt: next, Attempt: attempt, Payload: []byte("p"), SchemaVersion: 1}
+		env := &Envelope{ID: w.ids[i], Route: route, Target: "t0", State: st, ReceivedAt: recv, NextRunAt: next, Attempt: attempt, Payload: []byte("p"), SchemaVersion: 1}
 		if st == StateLeased {
 			until := vrt.Time("until")
 			qSet(row, "lease_id", vsql.Text(mLeases[i]))
@@ -346,18 +350,20 @@ func errClass(err error) int {
 }
 
 // verif:harness props=C13 tier=quick weight=90
-// verif:bounds the same state (N=2 rows/items, thorough 3; any states, arbitrary timestamps) in a MemoryStore and in a SQLiteStore over the SQL model, one operation with the same arguments on both: ack/nack/extend/mark-dead with a lease id from {current ids, unknown, blank} and arbitrary durations; ack/nack/mark-dead batch of 2; cancel/requeue/resume/DLQ requeue/DLQ delete by an id list of 2; delivered-retention on/off on both
+// verif:bounds the same state (N=2 rows/items on routes r0/r1, thorough 3; any states, arbitrary timestamps) in a MemoryStore and in a SQLiteStore over the SQL model, one operation with the same arguments on both: ack/nack/extend/mark-dead with a lease id from {current ids, unknown, blank} and arbitrary durations; ack/nack/mark-dead batch of 2; cancel/requeue/resume/DLQ requeue/DLQ delete by an id list of 2; dequeue with route filter none/r0/r1, batch N and arbitrary TTL (sweep due); single enqueue of a fresh or existing id under max_depth 1..N+1 with reject/drop_oldest (received_at in insertion order, active count within the limit); delivered-retention on/off on both
 func VerifC13MemoryVsSQLite() {
 	n := 2
 	if vrt.Thorough() {
 		n = 3
 	}
-	w, m := qNew(n, true)
+	w, m := qNew(n, true, true)
 	if vrt.Bool("deliveredRetention") {
 		w.s.deliveredRetentionMaxAge = time.Hour
 		m.s.deliveredRetentionMaxAge = time.Hour
 	}
-	family := vrt.Choose("family", 3)
+	genLease := map[string]bool{}
+	retention := w.s.deliveredRetentionMaxAge > 0
+	family := vrt.Choose("family", 5)
 	d := vrt.Duration("d")
 	lm := []string{"L0", "L1", "zz", ""} // (blank-padded ids: see the single-lease note in DESIGN.md — memory does not trim them, SQLite does)
 	switch family {
@@ -410,6 +416,84 @@ func VerifC13MemoryVsSQLite() {
 		c1, e1 := qManage(m.s, op, ids)
 		c2, e2 := qManage(w.s, op, ids)
 		vrt.Assert("C13.manage.same-counts", errClass(e1) == errClass(e2) && c1 == c2)
+	case 3:
+		// dequeue with enough capacity for every ready message (which of several equally eligible messages a smaller batch
+		// picks is left open by the property); the SQLite sweep is due (its throttle is the 10 ms granularity of C05)
+		vrt.Assume(w.now.UnixNano() > int64(time.Hour))
+		w.s.lastLeaseSweepNanos = 0
+		filter := []string{"", "r0", "r1"}[vrt.Choose("filter", 3)]
+		ttl := vrt.Duration("ttl")
+		vrt.Assume(ttl > 0 && ttl < 1000*time.Hour)
+		req := DequeueRequest{Route: filter, Batch: n, LeaseTTL: ttl}
+		r1, e1 := m.s.Dequeue(req)
+		r2, e2 := w.s.Dequeue(req)
+		same := errClass(e1) == errClass(e2) && len(r1.Items) == len(r2.Items)
+		if same {
+			for _, a := range r1.Items {
+				found := false
+				for _, b := range r2.Items {
+					if a.ID == b.ID {
+						found = a.Attempt == b.Attempt && a.State == b.State && a.LeaseUntil.Equal(b.LeaseUntil) && a.Route == b.Route && a.Target == b.Target && a.ReceivedAt.Equal(b.ReceivedAt) && string(a.Payload) == string(b.Payload)
+					}
+				}
+				same = same && found
+				genLease[a.LeaseID] = true
+			}
+			for _, b := range r2.Items {
+				genLease[b.LeaseID] = true
+			}
+		}
+		vrt.Assert("C13.dequeue.same-messages-with-identical-fields", same)
+	case 4:
+		// single enqueue under a depth limit (received_at in insertion order, as every real history has it: drop_oldest then
+		// picks the same victim on both)
+		for i := 1; i < n; i++ {
+			vrt.Assume(!m.s.items[w.ids[i]].ReceivedAt.Before(m.s.items[w.ids[i-1]].ReceivedAt))
+		}
+		vrt.Replace(isSQLiteConstraintError, func(err error) bool { return err == vsql.ErrConstraint })
+		depth := 1 + vrt.Choose("max-depth", n+1)
+		policy := []string{"reject", "drop_oldest"}[vrt.Choose("drop-policy", 2)]
+		active, delivered := 0, 0
+		for i := 0; i < n; i++ {
+			if st := m.s.items[w.ids[i]].State; st == StateQueued || st == StateLeased {
+				active++
+			} else if st == StateDelivered {
+				delivered++
+			}
+		}
+		vrt.Assume(active <= depth) // (histories that lifted the active count above max_depth are excluded by C12)
+		// recorded finding: with delivered retention on, the memory backend (only) counts retained delivered messages against max_depth
+		vrt.KnownFinding("C13-memory-depth-guard-counts-retained-delivered", retention && delivered > 0 && active+delivered >= depth)
+		w.s.maxDepth, w.s.dropPolicy = depth, policy
+		m.s.maxDepth, m.s.dropPolicy = depth, policy
+		id := []string{"n1", "m0"}[vrt.Choose("new-id", 2)]
+		env := Envelope{ID: id, Route: "r1", Target: "t0", Payload: []byte("p")}
+		e1 := m.s.Enqueue(env)
+		e2 := w.s.Enqueue(env)
+		cls := func(err error) int {
+			switch err {
+			case nil:
+				return 0
+			case ErrQueueFull:
+				return 1
+			case ErrEnvelopeExists:
+				return 2
+			}
+			return 3
+		}
+		vrt.Assert("C13.enqueue.same-verdict", cls(e1) == cls(e2))
+		// the new message itself
+		var a, b mSnap
+		if it, ok := m.s.items["n1"]; ok {
+			a = mSnap{present: true, id: it.ID, state: it.State, route: it.Route, target: it.Target, attempt: it.Attempt, receivedAt: it.ReceivedAt, nextRunAt: it.NextRunAt}
+		}
+		for _, r := range w.db.Rows {
+			if qCol(r, "id").S == "n1" {
+				b = mSnap{present: true, id: "n1", state: State(qCol(r, "state").S), route: qCol(r, "route").S, target: qCol(r, "target").S, attempt: int(qCol(r, "attempt").I),
+					receivedAt: time.Unix(0, qCol(r, "received_at").I), nextRunAt: time.Unix(0, qCol(r, "next_run_at").I)}
+			}
+		}
+		vrt.Assert("C13.enqueue.same-new-message", sameRow(a, b))
 	}
 	// same observable contents afterwards (so the comparison extends to every history by induction)
 	ms, qs := m.snap(), w.snap()
@@ -417,6 +501,9 @@ func VerifC13MemoryVsSQLite() {
 		a, b := ms[i], qs[i]
 		if a.present {
 			a.npayload, a.payload, a.nhdr, a.hdr = 1, 'p', 0, ""
+		}
+		if genLease[a.leaseID] && genLease[b.leaseID] {
+			a.leaseID, b.leaseID = "generated", "generated" // lease ids handed out by this step differ by construction
 		}
 		vrt.Assert("C13.same-contents-afterwards", sameRow(a, b))
 	}
